@@ -41,6 +41,7 @@ type Params struct {
 	FastPath         bool   `json:"fast_path,omitempty"`
 	NotifyBuf        int    `json:"notify_buf,omitempty"`
 	NotifyDelayMs    int    `json:"notify_delay_ms,omitempty"`
+	NotifyLazy       bool   `json:"notify_lazy,omitempty"` // the consumer is busy *before* each receive as well
 	ApplyDelayMs     int    `json:"apply_delay_ms,omitempty"`
 	PersistDelayMs   int    `json:"persist_delay_ms,omitempty"`
 	RestoreDelayMs   int    `json:"restore_delay_ms,omitempty"`
@@ -310,6 +311,19 @@ func (c *Cluster) Start(nd *Node) bool {
 	go func() {
 		defer in.wg.Done()
 		for {
+			if p.NotifyLazy && delay > 0 {
+				// a consumer that looks at the channel only now and then
+				select {
+				case <-time.After(delay/2 + time.Duration(rng.Int63n(int64(delay)/2+1))):
+					select {
+					case v := <-in.notify:
+						disk.LogIfLive(ep, Ev{K: "n.notify", A: b2u(v)})
+					default:
+					}
+					continue
+				case <-in.stopC:
+				}
+			}
 			select {
 			case v := <-in.notify:
 				disk.LogIfLive(ep, Ev{K: "n.notify", A: b2u(v)})
@@ -655,6 +669,15 @@ func (c *Cluster) Reading(nd *Node, tag string) {
 		return
 	}
 	r := in.r
+	if tag == "final" || tag == "quiet" {
+		// LeaderCh holds the most recent transition until somebody takes it: at a rest point the
+		// observer looks into the channel itself instead of waiting for the slow consumer
+		select {
+		case v := <-r.LeaderCh():
+			nd.disk.LogIfLive(in.ep, Ev{K: "n.lch", A: b2u(v), B: 2})
+		default:
+		}
+	}
 	st := in.fsm.State()
 	_, lid := r.LeaderWithID()
 	nd.disk.LogIfLive(in.ep, Ev{K: "s.read", X: tag, A: r.CurrentTerm(), B: uint64(r.State()), C: r.LastIndex(), D: r.CommitIndex(), E: r.AppliedIndex(), F: st.Hash, Y: string(lid), P: CfgString(r.GetConfiguration().Configuration()), R: st.Encode()})
